@@ -73,10 +73,10 @@ example : ∃ s, Reach ⟨1, 1, 1, 4, 4, true, true⟩ s ∧ s.count = 1 ∧ s.b
 /-! ## panics are isolated -/
 
 /-- C09_panic (state invariant): every panic raised by a job is either still on its way to the handler (the
-    worker is between `recover` and the handler call) or has been reported exactly once with the job's own
-    panic value; a job panics at most as often as it finishes, hence (C09_once) at most once. -/
+    worker is between `recover` and the handler call), or has been reported exactly once with the job's own
+    panic value, or was recovered while no handler was installed (`unreported`: SetPanicHandler(nil)); a job panics at most as often as it finishes, hence (C09_once) at most once. -/
 theorem C09_panic (c : Cfg) (s : St) (h : Reach c s) :
-    (∀ jv, s.panicLog.count jv = wsum (panJV jv) s.workers + s.handlerLog.count jv) ∧
+    (∀ jv, s.panicLog.count jv = wsum (panJV jv) s.workers + s.handlerLog.count jv + s.unreported.count jv) ∧
     (∀ j, (s.panicLog.map Prod.fst).count j ≤ s.finished.count j ∧ s.finished.count j ≤ 1) := by
   have hp := reach_invP h
   refine ⟨hp.han, fun j => ⟨hp.pan j, ?_⟩⟩
@@ -88,7 +88,8 @@ theorem C09_panic (c : Cfg) (s : St) (h : Reach c s) :
     they add exactly one handler call `(j, v)`, give back exactly this worker's slot in workerCount and
     workerBusy, post the spawn token (fix 347608c), and change nothing else: no job counter (`started`),
     not the queue, not the accepted set, not the closed flag, no other worker. -/
-theorem C09_panic_exit (c : Cfg) (s : St) (w j v : Nat) (hw : s.workers[w]? = some (.run j)) :
+theorem C09_panic_exit (c : Cfg) (s : St) (w j v : Nat) (hw : s.workers[w]? = some (.run j))
+    (hh : s.handler = true) :
     ∃ t, runActs c s [.wPanic w v, .wHandler w, .wExitDec w, .wExitTok w] = some t ∧
       t.handlerLog = (j, v) :: s.handlerLog ∧ t.panicLog = (j, v) :: s.panicLog ∧
       t.count = s.count - 1 ∧ t.busy = s.busy - 1 ∧ t.token = true ∧
@@ -99,7 +100,27 @@ theorem C09_panic_exit (c : Cfg) (s : St) (w j v : Nat) (hw : s.workers[w]? = so
   have g : ∀ (l : List WPc) (x : WPc), w < l.length → (l.set w x)[w]? = some x := fun l x h => by simp [h]
   simp only [runActs, step, stepW, hw, setW]
   rw [g _ _ hlt]
+  simp only [hh, if_true]
+  rw [g _ _ (by simpa using hlt)]
   simp only []
+  rw [g _ _ (by simpa using hlt)]
+  simp
+
+/-- C09_panic_exit_nil: the same exit path when the handler was cleared with SetPanicHandler(nil): the nil
+    guard skips the call — no handler call, and the worker still gives its slot back and posts the token; the
+    pool goes on. -/
+theorem C09_panic_exit_nil (c : Cfg) (s : St) (w j v : Nat) (hw : s.workers[w]? = some (.run j))
+    (hh : s.handler = false) :
+    ∃ t, runActs c s [.wPanic w v, .wHandler w, .wExitDec w, .wExitTok w] = some t ∧
+      t.handlerLog = s.handlerLog ∧ t.unreported = (j, v) :: s.unreported ∧
+      t.count = s.count - 1 ∧ t.busy = s.busy - 1 ∧ t.token = true ∧
+      t.workers = s.workers.set w .gone ∧
+      t.started = s.started ∧ t.queue = s.queue ∧ t.accepted = s.accepted ∧ t.closed = s.closed := by
+  have hlt := lt_of_getElem? hw
+  have g : ∀ (l : List WPc) (x : WPc), w < l.length → (l.set w x)[w]? = some x := fun l x h => by simp [h]
+  simp only [runActs, step, stepW, hw, setW]
+  rw [g _ _ hlt]
+  simp only [hh, Bool.false_eq_true, if_false]
   rw [g _ _ (by simpa using hlt)]
   simp only []
   rw [g _ _ (by simpa using hlt)]
